@@ -237,6 +237,61 @@ pub fn build_profile(rows: &[(Bucket, Edge, u32, u32)]) -> Profile {
     }
     p
 }
+/// the table a list of (bucket, edge, regret, policy) assignments describes: the later assignment
+/// to the same (bucket, edge) wins; order = the nested map's iteration order
+pub fn intended_profile(rows: &[(Bucket, Edge, u32, u32)]) -> Vec<(Bucket, Edge, u32, u32)> {
+    let mut m: BTreeMap<(Bucket, Edge), (u32, u32)> = BTreeMap::new();
+    for (b, e, r, q) in rows {
+        m.insert((*b, *e), (*r, *q));
+    }
+    m.into_iter().map(|((b, e), (r, q))| (b, e, r, q)).collect()
+}
+pub fn typed_rows(t: &[(Bucket, Edge, u32, u32)]) -> Vec<Vec<u64>> {
+    t.iter().map(|(b, e, r, q)| vec![u64::from(b.0), u64::from(b.1), u64::from(b.2), u64::from(*e), *r as u64, *q as u64]).collect()
+}
+/// a profile whose values are reached the way training reaches them — `add_regret` / `add_policy`
+/// on entries created with zeros — and NOT through `Memory::set_regret` / `set_policy`.
+/// Returns the profile and the values it must hold, tracked here in f32 arithmetic:
+/// in the explore phase `add_regret` does `regret = regret * 1 + value`, `add_policy` does
+/// `policy = policy * d + value` with a finite d (so from 0: `0 + value`).
+pub fn build_profile_by_updates(rng: &mut Rng, targets: &[(Bucket, Edge, u32, u32)]) -> (Profile, Vec<(Bucket, Edge, u32, u32)>) {
+    use robopoker::mccfr::policy::Policy;
+    use robopoker::mccfr::regret::Regret;
+    use std::hint::black_box as bb;
+    let targets = intended_profile(targets);
+    let mut p = Profile::default();
+    for (b, e, _, _) in &targets {
+        p.verif_set_memory(b, e, 0.0, 0.0);
+    }
+    p.verif_set_epochs(robopoker::verif::CFR_DISCOUNT_PHASE); // explore phase: no regret discount
+    let mut tracked = vec![];
+    for (b, e, r, q) in &targets {
+        let r = f32::from_bits(*r);
+        let steps: Vec<f32> = match rng.below(3) {
+            0 => vec![r],
+            1 => vec![r * 0.5, r * 0.5],
+            _ => vec![r * 0.25, r * 0.5, r * 0.25, -2.5e5, -2.5e5],
+        };
+        let mut acc = 0.0f32;
+        for s in steps {
+            p.add_regret(b, &Regret::from([(*e, s)].into_iter().collect::<BTreeMap<_, _>>()));
+            acc = bb(bb(acc) * bb(1.0f32)) + bb(s);
+        }
+        let q = f32::from_bits(*q);
+        p.add_policy(b, &Policy::from([(*e, q)].into_iter().collect::<BTreeMap<_, _>>()));
+        let accq = bb(0.0f32) + bb(q);
+        tracked.push((*b, *e, acc.to_bits(), accq.to_bits()));
+    }
+    (p, tracked)
+}
+/// the map a list of (key, value) assignments describes
+pub fn intended_metric(rows: &[(u64, u32)]) -> Vec<Vec<u64>> {
+    let mut m: BTreeMap<u64, u32> = BTreeMap::new();
+    for (k, v) in rows {
+        m.insert(*k, *v);
+    }
+    m.into_iter().map(|(k, v)| vec![k, v as u64]).collect()
+}
 pub fn metric_rows(m: &Metric) -> Vec<Vec<u64>> {
     m.verif_entries().into_iter().map(|(p, d)| vec![i64::from(p) as u64, d.to_bits() as u64]).collect()
 }
